@@ -36,6 +36,10 @@ type LockScenario struct {
 	Kill       bool         `json:"kill"` // holder is SIGKILLed instead of released
 	Follower   Invocation   `json:"follower"`
 	Stress     int          `json:"stress"` // >0: start that many runs at once, no pause
+	// Tail: the holder (do-approve) is not parked inside its device session
+	// but after it, while it reports and records the result: its output
+	// goes to a pipe that is already full.
+	Tail bool `json:"tail,omitempty"`
 }
 
 func (ls *LockScenario) Case() *props.Case {
@@ -230,7 +234,11 @@ func oracleC12(c *props.Case) props.Verdict {
 	if err := syscall.Mkfifo(fifo, 0600); err != nil {
 		return props.DiscardV("harness: " + err.Error())
 	}
-	sim, err := le.simulate(map[string]any{"pos": ls.PausePos, "fifo": fifo, "mark": mark})
+	pausePlan := map[string]any{"pos": ls.PausePos, "fifo": fifo, "mark": mark}
+	if ls.Tail {
+		pausePlan = nil
+	}
+	sim, err := le.simulate(pausePlan)
 	if err != nil {
 		return props.DiscardV("harness")
 	}
@@ -241,8 +249,29 @@ func oracleC12(c *props.Case) props.Verdict {
 	}
 	hso, hse := &bytes.Buffer{}, &bytes.Buffer{}
 	holder.Stdout, holder.Stderr = hso, hse
+	var tailR, tailW *os.File
+	if ls.Tail {
+		// a pipe filled to capacity: the first write of the holder blocks
+		tailR, tailW, err = os.Pipe()
+		if err != nil {
+			return props.DiscardV("harness")
+		}
+		fd := int(tailW.Fd())
+		syscall.SetNonblock(fd, true)
+		chunk := make([]byte, 4096)
+		for {
+			if _, err := syscall.Write(fd, chunk); err != nil {
+				break
+			}
+		}
+		syscall.SetNonblock(fd, false)
+		holder.Stdout, holder.Stderr = tailW, tailW
+	}
 	if err := holder.Start(); err != nil {
 		return props.DiscardV("harness")
+	}
+	if tailW != nil {
+		tailW.Close()
 	}
 	holderDone := make(chan struct{})
 	var hres procResult
@@ -259,6 +288,20 @@ func oracleC12(c *props.Case) props.Verdict {
 		close(holderDone)
 	}()
 	release := func() {
+		if tailR != nil {
+			// drain the pipe: the holder's writes complete
+			go func(r *os.File) {
+				buf := make([]byte, 65536)
+				for {
+					if _, err := r.Read(buf); err != nil {
+						break
+					}
+				}
+				r.Close()
+			}(tailR)
+			tailR = nil
+			return
+		}
 		// opening the FIFO for writing unblocks the simulator
 		if f, err := os.OpenFile(fifo, os.O_WRONLY|syscall.O_NONBLOCK, 0); err == nil {
 			f.Write([]byte("x"))
@@ -271,6 +314,25 @@ func oracleC12(c *props.Case) props.Verdict {
 		if _, err := os.Stat(mark); err == nil {
 			parked = true
 			break
+		}
+		if ls.Tail {
+			// the device session of the holder is over, the holder is not
+			done := false
+			for _, ev := range dlg.ReadTranscript(le.transcript) {
+				done = done || ev.Ev == "end"
+			}
+			if done {
+				// give it a moment to reach (and block in) its first write
+				time.Sleep(150 * time.Millisecond)
+				select {
+				case <-holderDone:
+				default:
+					parked = true
+				}
+				if parked {
+					break
+				}
+			}
 		}
 		select {
 		case <-holderDone:
